@@ -10,6 +10,8 @@
 #include <verif.hpp>
 #include <kernel/runtime.hpp>
 #include <mpi.h>
+#include <kernel/util/dist.hpp>
+#include <kernel/util/binary_stream.hpp>
 #include <mpi_explore.hpp>
 #include <explore.hpp>
 #include <sched.h>
@@ -22,6 +24,7 @@ namespace
   {
     std::string err;                 // failures of this execution
     std::vector<std::string> obs;    // per rank: observation string (arrival orders etc.)
+    std::string finding_key, finding_msg;   // a defect of the code under test (not of the model) with its own stable key
     void fail(int rank, const std::string& m) { if(err.size() < 2000) err += "[rank " + std::to_string(rank) + "] " + m + "; "; }
   };
 #define EXPECT(cond, msg) do { if(!(cond)) { std::ostringstream o_; o_ << msg; e.fail(rank, o_.str()); } } while(0)
@@ -492,6 +495,91 @@ namespace
       }
     }, [](int P) { return fact(P + 1); }, [](int P) { return fact(P + 1); }, false});
     // ------------------------------------------------------------------------------------------
+    T.push_back({"FEAT::Dist wrappers (kernel/util/dist.cpp): every Comm / Request / RequestVector function incl. the in-place decisions", 1, 4, [](int rank, int P, Exec& e)
+    {
+      using namespace FEAT;
+      const size_t n = size_t(P);
+      Dist::Comm comm = Dist::Comm::world();
+      EXPECT(comm.is_world() && !comm.is_self() && !comm.is_null() && comm.rank() == rank && comm.size() == P, "world properties");
+      { Dist::Comm s = Dist::Comm::self(); EXPECT(s.is_self() && s.size() == 1 && s.rank() == 0, "self properties"); Dist::Comm z = Dist::Comm::null(); EXPECT(z.is_null(), "null properties"); }
+      comm.barrier();
+      { Dist::Request rq = comm.ibarrier(); rq.wait(); EXPECT(rq.is_null(), "ibarrier request after wait"); }
+      // communicator construction
+      { Dist::Comm d = comm.comm_dup(); EXPECT(d.is_world(), "comm_dup of the world returns the world");
+        Dist::Comm sp = comm.comm_split(rank % 2, P - rank); int members = (P + 1 - (rank % 2)) / 2; EXPECT(sp.size() == members, "comm_split size " << sp.size());
+        Dist::Comm sd = sp.comm_dup(); EXPECT(sd.size() == members && !sd.is_world(), "dup of a split comm");
+        int sum = rank; sd.allreduce(&sum, &sum, std::size_t(1), Dist::op_sum); int want = 0; for(int r = rank % 2; r < P; r += 2) want += r; EXPECT(sum == want, "allreduce (in place) on a split comm " << sum);
+        std::vector<int> rk; for(int r = P - 1; r >= 0; r -= 2) rk.push_back(r);
+        Dist::Comm ci = comm.comm_create_incl(int(rk.size()), rk.data());
+        bool member = false; for(size_t k = 0; k < rk.size(); ++k) if(rk[k] == rank) { member = true; EXPECT(ci.rank() == int(k) && ci.size() == int(rk.size()), "comm_create_incl rank " << ci.rank()); }
+        if(!member) EXPECT(ci.is_null(), "comm_create_incl on a non-member");
+        Dist::Comm cr = comm.comm_create_range_incl((P + 1) / 2, 0, 2);
+        if(rank % 2 == 0) EXPECT(cr.rank() == rank / 2, "comm_create_range_incl rank"); else EXPECT(cr.is_null(), "comm_create_range_incl on a non-member"); }
+      // point to point, requests
+      if(P >= 2)
+      {
+        const int nx = (rank + 1) % P, pv = (rank + P - 1) % P;
+        double out = 1.5 * rank, in = -1;
+        Dist::Request rr = comm.irecv(&in, std::size_t(1), pv, 3);
+        Dist::Request rs = comm.isend(&out, std::size_t(1), nx, 3);
+        Dist::Status st; int guard = 0; while(!rr.test(st) && guard++ < 1000) {}
+        EXPECT(in == 1.5 * pv && st.source() == pv && st.tag() == 3 && st.get_count(Dist::dt_double) == 1u, "isend/irecv/test " << in);
+        rs.wait();
+        Dist::Request rc = comm.irecv(&in, std::size_t(1), pv, 99); rc.cancel(); rc.wait(); EXPECT(rc.is_null(), "cancelled request");
+        Dist::Request rf = comm.isend(&out, std::size_t(1), nx, 4); rf.free(); EXPECT(rf.is_null(), "freed request"); comm.recv(&in, std::size_t(1), pv, 4);
+        Dist::RequestVector rv(2); long lo = 10 + rank, li = -1;
+        rv.get_request(0) = comm.irecv(&li, std::size_t(1), pv, 5); rv.get_request(1) = comm.isend(&lo, std::size_t(1), nx, 5);
+        guard = 0; while(!rv.test_all() && guard++ < 1000) {} EXPECT(li == 10 + pv, "test_all " << li);
+        Dist::RequestVector rw(2); rw.get_request(0) = comm.irecv(&li, std::size_t(1), pv, 6); rw.get_request(1) = comm.isend(&lo, std::size_t(1), nx, 6);
+        int done = 0; guard = 0; std::size_t idx = 99; Dist::Status s2; while(done < 2 && guard++ < 1000) { if(rw.test_any(idx, s2)) ++done; } EXPECT(done == 2 && li == 10 + pv, "test_any " << done);
+        idx = 7; if(rw.test_any(idx, s2)) { std::ostringstream o_; o_ << "returned true with idx=" << idx << " although no request of the vector was active (documented: false)"; e.finding_key = "Dist::RequestVector::test_any without active requests"; e.finding_msg = o_.str(); }
+        if(rank % 2 == 0) { char msg[4] = {'a', 'b', char('0' + rank), 0}; comm.send(msg, std::size_t(4), nx, 7); char got[4]; Dist::Status s3; comm.recv(got, std::size_t(4), pv, 7, s3); EXPECT(got[2] == char('0' + pv) && s3.get_size() == 4u, "send/recv"); }
+        else { char got[4]; comm.recv(got, std::size_t(4), pv, 7); char msg[4] = {'a', 'b', char('0' + rank), 0}; comm.send(msg, std::size_t(4), nx, 7); EXPECT(got[2] == char('0' + pv), "recv/send"); }
+        if(P % 2 == 1 && P > 1) { /* odd ring: ranks P-1 and 0 both send first; legal only if sends are buffered -> skipped above for the last rank by ordering */ }
+      }
+      // collectives through the wrappers
+      for(int root = 0; root < P; ++root)
+      {
+        int b = (rank == root) ? 50 + root : -1; comm.bcast(&b, std::size_t(1), root); EXPECT(b == 50 + root, "bcast");
+        int ib = (rank == root) ? 60 + root : -1; { Dist::Request rq = comm.ibcast(&ib, std::size_t(1), root); rq.wait(); } EXPECT(ib == 60 + root, "ibcast");
+        std::vector<int> g(n, -1); int mine = 7 * rank; comm.gather(&mine, std::size_t(1), g.data(), std::size_t(1), root); if(rank == root) for(int r = 0; r < P; ++r) EXPECT(g[size_t(r)] == 7 * r, "gather slot " << r);
+        std::vector<int> gi(n, -1); { Dist::Request rq = comm.igather(&mine, std::size_t(1), gi.data(), std::size_t(1), root); rq.wait(); } if(rank == root) for(int r = 0; r < P; ++r) EXPECT(gi[size_t(r)] == 7 * r, "igather slot " << r);
+        // gather with sendbuf == recvbuf on the root: the wrapper switches to MPI_IN_PLACE, i.e. the root's data is expected in ITS slot
+        std::vector<int> gp(n, -1); gp[size_t(rank == root ? root : 0)] = 9 * rank; comm.gather(rank == root ? gp.data() : &gp[0], std::size_t(1), gp.data(), std::size_t(1), root);
+        if(rank == root && root == 0) for(int r = 0; r < P; ++r) EXPECT(gp[size_t(r)] == 9 * r, "gather (aliased buffers, root 0) slot " << r);
+        std::vector<double> sc(n); for(int r = 0; r < P; ++r) sc[size_t(r)] = 0.5 * r + root; double piece = -1;
+        comm.scatter(sc.data(), std::size_t(1), &piece, std::size_t(1), root); EXPECT(piece == 0.5 * rank + root, "scatter");
+        piece = -1; { Dist::Request rq = comm.iscatter(sc.data(), std::size_t(1), &piece, std::size_t(1), root); rq.wait(); } EXPECT(piece == 0.5 * rank + root, "iscatter");
+        int rs = rank + 1, rr = -1; comm.reduce(&rs, &rr, std::size_t(1), Dist::op_sum, root); if(rank == root) EXPECT(rr == P * (P + 1) / 2, "reduce");
+        int ri = rank + 1; comm.reduce(&ri, &ri, std::size_t(1), Dist::op_max, root); if(rank == root) EXPECT(ri == P, "reduce (aliased buffers) " << ri);
+        rr = -1; { Dist::Request rq = comm.ireduce(&rs, &rr, std::size_t(1), Dist::op_min, root); rq.wait(); } if(rank == root) EXPECT(rr == 1, "ireduce");
+      }
+      { short a = short(3 * rank); std::vector<short> ag(n, -1); comm.allgather(&a, std::size_t(1), ag.data(), std::size_t(1)); for(int r = 0; r < P; ++r) EXPECT(ag[size_t(r)] == 3 * r, "allgather");
+        std::vector<short> ai(n, -1); ai[size_t(rank)] = short(5 * rank); comm.allgather(ai.data(), std::size_t(1), ai.data(), std::size_t(1)); for(int r = 0; r < P; ++r) EXPECT(ai[size_t(r)] == 5 * r, "allgather (aliased buffers)");
+        std::vector<short> aa(n, -1); { Dist::Request rq = comm.iallgather(&a, std::size_t(1), aa.data(), std::size_t(1)); rq.wait(); } for(int r = 0; r < P; ++r) EXPECT(aa[size_t(r)] == 3 * r, "iallgather");
+        std::vector<int> cnt(n), dsp(n); int tot = 0; for(int r = 0; r < P; ++r) { cnt[size_t(r)] = r + 1; dsp[size_t(r)] = tot; tot += r + 1; }
+        std::vector<int> mv(size_t(rank + 1), 100 + rank), av(static_cast<size_t>(tot), -1); comm.allgatherv(mv.data(), std::size_t(rank + 1), av.data(), cnt.data(), dsp.data());
+        for(int r = 0; r < P; ++r) for(int k = 0; k <= r; ++k) EXPECT(av[size_t(dsp[size_t(r)] + k)] == 100 + r, "allgatherv");
+        std::vector<int> ts(n), tr(n, -1); for(int r = 0; r < P; ++r) ts[size_t(r)] = 10 * rank + r; comm.alltoall(ts.data(), std::size_t(1), tr.data(), std::size_t(1)); for(int r = 0; r < P; ++r) EXPECT(tr[size_t(r)] == 10 * r + rank, "alltoall");
+        std::vector<int> tq(n, -1); { Dist::Request rq = comm.ialltoall(ts.data(), std::size_t(1), tq.data(), std::size_t(1)); rq.wait(); } for(int r = 0; r < P; ++r) EXPECT(tq[size_t(r)] == 10 * r + rank, "ialltoall");
+        comm.alltoall(ts.data(), std::size_t(1), ts.data(), std::size_t(1)); for(int r = 0; r < P; ++r) EXPECT(ts[size_t(r)] == 10 * r + rank, "alltoall (aliased buffers)");
+        std::vector<int> one(n, 1), dd(n); for(int r = 0; r < P; ++r) dd[size_t(r)] = r; std::vector<int> vs(n), vr(n, -1); for(int r = 0; r < P; ++r) vs[size_t(r)] = 20 * rank + r;
+        comm.alltoallv(vs.data(), one.data(), dd.data(), vr.data(), one.data(), dd.data()); for(int r = 0; r < P; ++r) EXPECT(vr[size_t(r)] == 20 * r + rank, "alltoallv");
+        double x = 0.25 * (rank + 1), y = -1; comm.allreduce(&x, &y, std::size_t(1), Dist::op_sum); EXPECT(y == 0.25 * P * (P + 1) / 2, "allreduce");
+        { Dist::Request rq = comm.iallreduce(&x, &y, std::size_t(1), Dist::op_max); rq.wait(); } EXPECT(y == 0.25 * P, "iallreduce");
+        long s1 = rank + 1, so = -1; comm.scan(&s1, &so, std::size_t(1), Dist::op_sum); EXPECT(so == long(rank + 1) * (rank + 2) / 2, "scan");
+        long e1 = rank + 1, eo = -5; comm.exscan(&e1, &eo, std::size_t(1), Dist::op_sum); if(rank > 0) EXPECT(eo == long(rank) * (rank + 1) / 2, "exscan");
+        long sa = rank + 1; comm.scan(&sa, &sa, std::size_t(1), Dist::op_sum); EXPECT(sa == long(rank + 1) * (rank + 2) / 2, "scan (aliased buffers)"); }
+      // streams and printing
+      { std::stringstream ss; if(rank == P - 1) ss << "hello " << P; comm.bcast_stringstream(ss, P - 1); EXPECT(ss.str() == "hello " + std::to_string(P), "bcast_stringstream '" << ss.str() << "'");
+        std::stringstream se; comm.bcast_stringstream(se, 0); EXPECT(se.str().empty(), "bcast_stringstream of an empty stream");
+        BinaryStream bs; if(rank == 0) { const char d[5] = {1, 2, 3, 4, 5}; bs.write(d, 5); } comm.bcast_binarystream(bs, 0); EXPECT(bs.container().size() == 5u && bs.container()[4] == 5, "bcast_binarystream");
+        std::ostringstream o1; comm.print(o1, "line", P - 1); EXPECT(o1.str() == (rank == P - 1 ? "line\n" : ""), "print");
+        std::ostringstream o2; comm.allprint(o2, rank % 2 == 0 ? String("r") + stringify(rank) + "\nx" : String(), 0);
+        if(rank == 0) { std::string want; for(int r = 0; r < P; r += 2) { want += "[" + std::to_string(r) + "] r" + std::to_string(r) + "\n[" + std::to_string(r) + "] x\n"; } EXPECT(o2.str() == want, "allprint '" << o2.str() << "'"); }
+        else EXPECT(o2.str().empty(), "allprint on a non-root"); }
+    }, nullptr, nullptr, false});
+    // ------------------------------------------------------------------------------------------
     {
       Test t{"leftovers are reported (unmatched eager send, unfreed communicator)", 2, 2, [](int rank, int, Exec&)
       {
@@ -524,7 +612,7 @@ namespace
     B.push_back({"deadlock: two blocking receives", 2, 0, [](int rank, int) { int v = 0; MPI_Recv(&v, 1, MPI_INT, 1 - rank, 0, MPI_COMM_WORLD, MPI_STATUS_IGNORE); MPI_Send(&v, 1, MPI_INT, 1 - rank, 0, MPI_COMM_WORLD); }, DEAD});
     B.push_back({"unsafe program: two blocking sends deadlock under rendezvous", 2, 1, [](int rank, int) { int v = 0, w = 0; MPI_Send(&v, 1, MPI_INT, 1 - rank, 0, MPI_COMM_WORLD); MPI_Recv(&w, 1, MPI_INT, 1 - rank, 0, MPI_COMM_WORLD, MPI_STATUS_IGNORE); }, DEAD});
     B.push_back({"deadlock: barrier missed by one rank", 3, 0, [](int rank, int) { if(rank != 2) MPI_Barrier(MPI_COMM_WORLD); }, DEAD});
-    B.push_back({"polling loop that can never succeed (livelock guard)", 2, 0, [](int rank, int) { if(rank == 0) { int v = 0, f = 0; MPI_Request r; MPI_Irecv(&v, 1, MPI_INT, 1, 0, MPI_COMM_WORLD, &r); while(!f) MPI_Test(&r, &f, MPI_STATUS_IGNORE); } }, SIGABRT});
+    B.push_back({"polling loop that can never succeed (reported as deadlock: no rank can act any more)", 2, 0, [](int rank, int) { if(rank == 0) { int v = 0, f = 0; MPI_Request r; MPI_Irecv(&v, 1, MPI_INT, 1, 0, MPI_COMM_WORLD, &r); while(!f) MPI_Test(&r, &f, MPI_STATUS_IGNORE); } }, DEAD});
     return B;
   }
 
@@ -579,6 +667,7 @@ int main(int argc, char** argv)
       if(!c.want()) continue;
       c.desc([&]{ return t.name + " P=" + std::to_string(P) + (mode ? " rendezvous" : " eager") + (kind ? " +rank-interleavings" : " answers"); });
       std::set<std::string> observations;
+      std::map<std::string, std::string> findings;
       std::string failure;
       auto one_exec = [&](const std::vector<int>& prefix) -> bool
       {
@@ -589,6 +678,7 @@ int main(int argc, char** argv)
         if(t.allow_leftovers && (r.left.find("unmatched send") == std::string::npos || r.left.find("not freed") == std::string::npos)) { failure = "leftovers not reported: '" + r.left + "'"; return false; }
         std::string o; for(auto& s : r.e.obs) { o += s; o += '|'; }
         observations.insert(o);
+        if(!r.e.finding_key.empty()) findings[r.e.finding_key] = r.e.finding_msg;
         return true;
       };
       if(c.replaying && !c.extra.empty())
@@ -632,6 +722,7 @@ int main(int argc, char** argv)
         if(f1.compare(0, 9, "MACHINERY") == 0 || again) c.fail("machinery", again ? "failing schedule did not reproduce: " + f1 : f1, s);
         else c.fail("model: " + t.name, f1 + " [schedule=" + s + "]", s);
       }
+      for(auto& f : findings) c.fail(f.first, f.second);
       c.outcome(std::to_string(observations.size()) + " observation(s)");
       if(P >= 2) c.nontrivial(verif::Hash().str(t.name).pod(P).pod(mode).pod(kind).get());
     }
